@@ -269,6 +269,14 @@ class World:
             BUILD_STATUS_CACHE.clear()
         except Exception:
             pass
+        # process-global registries as they are right after import: a
+        # restarted Bert-E is a new process and starts from these
+        from copy import deepcopy
+        from bert_e.reactor import Reactor
+        import bert_e.workflow.gitwaterflow  # noqa: F401 (registers options)
+        if not hasattr(World, '_pristine_reactor'):
+            World._pristine_reactor = [deepcopy(dict(m))
+                                       for m in Reactor.__callbacks__.maps]
         # host call interception
         world = self
 
@@ -817,6 +825,18 @@ class World:
                           ignore_errors=True)
         if count:
             self._count_fault('restart' + ('+wipe' if wipe else ''))
+        # a new process: import-time state of the process-global registries
+        from copy import deepcopy
+        from bert_e.reactor import Reactor
+        for m, pristine in zip(Reactor.__callbacks__.maps,
+                               World._pristine_reactor):
+            m.clear()
+            m.update(deepcopy(pristine))
+        try:
+            from bert_e.git_host.cache import BUILD_STATUS_CACHE
+            BUILD_STATUS_CACHE.clear()
+        except Exception:
+            pass
         self.make_berte()
 
     def make_job(self, ev):
